@@ -143,6 +143,9 @@ const MAX_EXPANDED_LINE: usize = 1 << 16;
 /// Text all expansions of one build may amount to: many lines that each are long are more than either limit alone allows
 const MAX_EXPANDED_BYTES: usize = 1 << 26;
 
+/// What a line costs beside its text: a blank line is copied and handed to the parser like any other
+const EXPANDED_LINE_COST: usize = 8;
+
 /// Puts the arguments in: `@n` stands for the n-th one. One digit is looked at (`@1` was always replaced before `@10`
 /// could be), and the line is read once, however many arguments there are.
 fn substitute(raw_line: &str, arguments: &[String], line: &CodePoint) -> Result<String, Error> {
@@ -255,7 +258,8 @@ fn pass0_internal(
 
 /// Counts the text of one expanded line against the budget of the build
 fn count_expanded_text(context: &Pass0Context, bytes: usize, line: &CodePoint) -> Result<(), Error> {
-    match context.expanded_bytes.get().checked_add(bytes) {
+    let cost = bytes.saturating_add(EXPANDED_LINE_COST);
+    match context.expanded_bytes.get().checked_add(cost) {
         Some(total) if total <= MAX_EXPANDED_BYTES => {
             context.expanded_bytes.set(total);
             Ok(())
